@@ -42,6 +42,16 @@ def c10_build(valid, unit, v, r, new_id):
     return c.line(new_id)
 
 
+def c10_plan_request(valid, unit, v, r):
+    """model-driver request for the SPEC's plan script of this (base, vector, r) — see props/families/valve.py; theorems
+    C10_quake_query_* (Props/C10_quake_whole.lean)"""
+    import re
+    m = re.fullmatch(r"q(\d+)_(\d+)", valid.id)
+    if not m:
+        return None
+    return f"quakeplan {m.group(1)} {m.group(2)} {r} {v}"
+
+
 def c10_attempts(valid, unit, sends, clean):
     """attempts seen on the wire: every attempt sends the request exactly once"""
     return len(sends)
